@@ -39,7 +39,7 @@ def dotted (p : List String) : String := ".".intercalate p
 def jTables (w : PWorld) : Json :=
   Json.arr ((watcherRows w).map fun (o, q, x) =>
     Json.arr #[toJson o, Json.str q, toJson x.owner, Json.str x.method,
-      (match x.changed with | some ps => jStrs (ps.map dotted) | none => Json.null),
+      Json.arr (x.changed.map fun (n, v) => Json.arr #[Json.str n, match v with | some ps => jStrs (ps.map dotted) | none => Json.null]).toArray,
       Json.bool x.callback.isSome, jStrs x.params]).toArray
 
 def jDyn (w : PWorld) : Json :=
